@@ -402,5 +402,37 @@ func runFE(c feCase, out map[string]bool) string {
 			labels.set("fuse-evicted-between-sequential-reads")
 		}
 	}
+	// the seed goes away and everything is evicted: a read now waits for data
+	// nobody can supply; when the kernel interrupts it (the process that was
+	// reading got a signal) it must come back instead of waiting for ever
+	if flen > 0 && c.fuseIntr >= 0 {
+		r.Close()
+		sim.Settle()
+		x.T.Pieces.Expire(0, nil, func(i uint32) { x.T.Have(i, false) })
+		sim.Settle()
+		ictx, icancel := context.WithCancel(context.Background())
+		defer icancel()
+		ro := &bfuse.ReadResponse{Data: make([]byte, 0, 100)}
+		odone := make(chan error, 1)
+		go func() { odone <- rd.Read(ictx, &bfuse.ReadRequest{Offset: 0, Size: int(min(100, flen))}, ro) }()
+		time.Sleep(time.Duration(1+c.fuseIntr) * time.Second)
+		sim.Settle()
+		select {
+		case err := <-odone:
+			// (served from a piece the idle prefetcher had not let go of, or refused at once)
+			if err == nil && !bytes.Equal(ro.Data, F[:len(ro.Data)]) {
+				return "fuse: a Read without any peer returned bytes that are not the file's"
+			}
+		default:
+			icancel()
+			select {
+			case <-odone:
+				labels.set("fuse-blocked-read-interrupted-without-peers")
+			case <-time.After(time.Minute):
+				cancel()
+				return "fuse: a Read that waits for data nobody can supply (no peers, everything evicted) was interrupted - its context ended - and has not returned a virtual minute later"
+			}
+		}
+	}
 	return ""
 }
